@@ -41,3 +41,9 @@ def collect(h):
     # (C22/C28/C29, immutable containers) header bytes produced by the live schema object
     h.bytes("imm_HEADER_SAMPLE_10", immutable_schema.NEWEST_SCHEMA_VERSION.header(10), "immutable_schema.NEWEST_SCHEMA_VERSION.header(10)")
     h.bytes("imm_HEADER_SAMPLE_BIG", immutable_schema.NEWEST_SCHEMA_VERSION.header(2 ** 32 + 5), "immutable_schema.NEWEST_SCHEMA_VERSION.header(2**32+5): length field saturates")
+    # (C22) the BucketWriter timeout: `clock.callLater(30 * 60, ...)` in __init__ and `_timeout.reset(30 * 60)` in
+    # write() are literals; CPython folds them, so the value is read from the code objects' constants
+    def _int_consts(fn):
+        return sorted(c for c in fn.__code__.co_consts if isinstance(c, int) and not isinstance(c, bool) and c >= 60)
+    h.natlist("imm_BW_TIMEOUT_INIT", _int_consts(simm.BucketWriter.__init__), "BucketWriter.__init__: callLater(30*60, _abort_due_to_timeout)")
+    h.natlist("imm_BW_TIMEOUT_WRITE", _int_consts(simm.BucketWriter.write), "BucketWriter.write: _timeout.reset(30*60)")
